@@ -83,11 +83,13 @@ Record rstate := mkrs {
   rs_ver : N; rs_mtime : Z; rs_size : Z;    (* the source file *)
   rs_cache : option rcache;
   rs_loaded : bool;                         (* the module is in sys.modules *)
-  rs_visible : N                            (* whose definitions the Vars hold; 0: none *)
+  rs_visible : N;                           (* whose definitions the Vars hold; 0: none *)
+  rs_dwb : bool                             (* sys.dont_write_bytecode *)
 }.
 
 Inductive rstep :=
 | RImport | RReload | RInvalidate
+| RSetDwb (b : bool)
 | REdit (ver : N) (mtime size : Z)
 | RBreak                      (* cache deleted, cut anywhere, or given another magic *)
 | RHdrMtime (delta : Z)       (* mtime field of the header := current mtime + delta *)
@@ -114,27 +116,29 @@ Definition rc_honest (st : rstate) : bool :=
   | None => true
   end.
 
-Definition ref_load (dwb : bool) (st : rstate) : robs * rstate :=
+Definition ref_load (st : rstate) : robs * rstate :=
   let valid := rc_valid st in
-  let cache' := if valid || dwb then rs_cache st
+  let cache' := if valid || rs_dwb st then rs_cache st
                 else Some (mkrc (rs_ver st) (rs_mtime st) (rs_size st)) in
-  let st' := mkrs (rs_ver st) (rs_mtime st) (rs_size st) cache' true (rs_ver st) in
+  let st' := mkrs (rs_ver st) (rs_mtime st) (rs_size st) cache' true (rs_ver st) (rs_dwb st) in
   (RLoad (rs_ver st) valid (rc_valid st'), st').
 
 Definition with_rcache (st : rstate) (c : option rcache) : rstate :=
-  mkrs (rs_ver st) (rs_mtime st) (rs_size st) c (rs_loaded st) (rs_visible st).
+  mkrs (rs_ver st) (rs_mtime st) (rs_size st) c (rs_loaded st) (rs_visible st) (rs_dwb st).
 
 (** one step: the observation (None: not a load), whether the premise held, the state *)
-Definition ref_step (dwb : bool) (st : rstate) (s : rstep) : option robs * bool * rstate :=
+Definition ref_step (st : rstate) (s : rstep) : option robs * bool * rstate :=
   match s with
   | RImport =>
       if rs_loaded st then (Some (RAlready (rs_visible st)), true, st)
-      else let (o, st') := ref_load dwb st in (Some o, rc_honest st, st')
+      else let (o, st') := ref_load st in (Some o, rc_honest st, st')
   | RReload =>
-      if rs_loaded st then let (o, st') := ref_load dwb st in (Some o, rc_honest st, st')
+      if rs_loaded st then let (o, st') := ref_load st in (Some o, rc_honest st, st')
       else (Some RNotLoaded, true, st)
   | RInvalidate | RSkip => (None, true, st)
-  | REdit v m s => (None, true, mkrs v m s (rs_cache st) (rs_loaded st) (rs_visible st))
+  | RSetDwb b =>
+      (None, true, mkrs (rs_ver st) (rs_mtime st) (rs_size st) (rs_cache st) (rs_loaded st) (rs_visible st) b)
+  | REdit v m s => (None, true, mkrs v m s (rs_cache st) (rs_loaded st) (rs_visible st) (rs_dwb st))
   | RBreak => (None, true, with_rcache st None)
   | RHdrMtime d =>
       (None, true, with_rcache st (option_map (fun rc => mkrc (rc_ver rc) (rs_mtime st + d) (rc_size rc)) (rs_cache st)))
@@ -142,11 +146,11 @@ Definition ref_step (dwb : bool) (st : rstate) (s : rstep) : option robs * bool 
       (None, true, with_rcache st (option_map (fun rc => mkrc (rc_ver rc) (rc_mtime rc) (rs_size st + d)) (rs_cache st)))
   end.
 
-Fixpoint ref_hist (dwb : bool) (st : rstate) (steps : list rstep) : list robs * bool * rstate :=
+Fixpoint ref_hist (st : rstate) (steps : list rstep) : list robs * bool * rstate :=
   match steps with
   | [] => ([], true, st)
   | s :: r =>
-      let '(o, h, st1) := ref_step dwb st s in
-      let '(os, hs, st2) := ref_hist dwb st1 r in
+      let '(o, h, st1) := ref_step st s in
+      let '(os, hs, st2) := ref_hist st1 r in
       (match o with Some x => x :: os | None => os end, h && hs, st2)
   end.
